@@ -146,7 +146,7 @@ impl Property for C20 {
         384
     }
     fn required_counters(&self) -> Vec<&'static str> {
-        vec!["placements", "prefixed_glob_walks", "walks", "fault_unreadable_reached", "fault_dangling_reached", "fault_reentrant_reached", "fault_at_base", "fault_last_child", "two_faults", "fault_beneath_discarded_tree", "fault_with_stack", "io_error_conversions"]
+        vec!["placements", "prefixed_glob_walks", "walks", "fault_unreadable_reached", "fault_dangling_reached", "fault_reentrant_reached", "fault_at_base", "fault_last_child", "two_faults", "fault_beneath_discarded_tree", "fault_with_stack", "io_error_conversions", "error_depths_compared"]
     }
     fn decode(&self, t: &mut Tape) -> Case {
         let tree = gen_tree(t, &TreeCfg { max_entries: 14, ..TreeCfg::default() });
@@ -228,7 +228,7 @@ impl Property for C20 {
             st.count("skipped_running_as_root");
             return Ok(());
         }
-        let layers_rt = match guard(|| prepare_layers(&case.layers)) {
+        let layers_rt = match guard(|| prepare_layers(&case.layers, false)) {
             Ok(Ok(l)) => l,
             _ => {
                 st.count("layer_not_built");
@@ -309,7 +309,21 @@ impl Property for C20 {
                     format!("{}/{}", prefix, rel)
                 }
             };
-            let reference: Vec<RefItem> = ref_walk(&start, case.follow)
+            let reference_from_start = ref_walk(&start, case.follow);
+            // documented: `WalkError::depth` is the depth from the root directory of the traversal
+            // (the walk start), which for a fault is the number of components of its path below it
+            let err_depth: BTreeMap<String, usize> = reference_from_start
+                .iter()
+                .filter_map(|i| match i {
+                    RefItem::Error { rel, .. } => {
+                        let joined = join(rel);
+                        let p = if joined.is_empty() { norm(&base) } else { norm(&base.join(&joined)) };
+                        Some((p, rel.split('/').filter(|c| !c.is_empty()).count()))
+                    },
+                    _ => None,
+                })
+                .collect();
+            let reference: Vec<RefItem> = reference_from_start
                 .into_iter()
                 .map(|i| match i {
                     RefItem::Entry { rel, is_dir, is_link, depth } => RefItem::Entry { rel: join(&rel), is_dir, is_link, depth },
@@ -340,7 +354,7 @@ impl Property for C20 {
                             return Err(describe(&format!("the walk feeds an entry downstream more than once: {:?}", log)));
                         }
                         let yielded = o.items.iter().filter_map(|i| i.rel.clone()).collect();
-                        match observe(&entries, g, fed, yielded, true) {
+                        match observe(&entries, g, fed, yielded, false) {
                             Ok(ob) => Some(ob),
                             Err(m) => return Err(describe(&m)),
                         }
@@ -415,6 +429,16 @@ impl Property for C20 {
                 return Err(describe(&format!("the walk did not terminate within {} items", cap)));
             }
             let bare_seq = seq(&bare);
+            for it in &bare {
+                if let Seen::Err { path: Some(p), depth } = &it.seen {
+                    if let Some(d) = err_depth.get(p) {
+                        st.count("error_depths_compared");
+                        if d != depth {
+                            return Err(describe(&format!("the error item for {:?} reports depth {} — the fault lies {} components below the root directory of the traversal", p, depth, d)));
+                        }
+                    }
+                }
+            }
             let mut act_ok: BTreeMap<String, usize> = BTreeMap::new();
             let mut act_err: BTreeMap<String, usize> = BTreeMap::new();
             for (ok, p) in &bare_seq {
